@@ -561,6 +561,8 @@ def hygiene(rep, res, entry, shape=True, purity=True, dtype=True, value=True, re
     R.rule_no_global_state(rep, res, entry)
     R.rule_extent_coincidence(rep, res, entry)
     R.rule_block_cover(rep, res, entry)
+    R.rule_display_neutral(rep, res, entry)
+    R.rule_count_denominator(rep, res, entry)
     R.rule_dtype_casts(rep, res, entry)
     R.rule_row_pick(rep, res, entry)
     R.rule_iterator_reuse(rep, res, entry)
